@@ -289,11 +289,12 @@ func switchCases(repo, file, recv, fn string) ([]string, error) {
 }
 
 // discoverExits classifies every `return` inside the refresh loop of (*connPool).discover by its guard:
-//   errIsPoolCtx   if … errors.Is(err, <ctx param>.Err())   (the pool's own context)
-//   errIsOtherCtx  if … errors.Is(err, <other>.Err())       (e.g. the per-request deadline context)
-//   poolDone       case <-done / <-ctx.Done()               (done := <ctx param>.Done())
-//   otherChan      any other select case
-//   other          anything else (unconditional, other conditions)
+//
+//	errIsPoolCtx   if … errors.Is(err, <ctx param>.Err())   (the pool's own context)
+//	errIsOtherCtx  if … errors.Is(err, <other>.Err())       (e.g. the per-request deadline context)
+//	poolDone       case <-done / <-ctx.Done()               (done := <ctx param>.Done())
+//	otherChan      any other select case
+//	other          anything else (unconditional, other conditions)
 func discoverExits(repo string) ([]string, error) {
 	fset := token.NewFileSet()
 	f, err := parser.ParseFile(fset, filepath.Join(repo, "transport.go"), nil, 0)
@@ -979,6 +980,12 @@ func extractRouting(repo, root string) error {
 	}
 	b.WriteString("/-- transport.go findMetadataTopic: the predicate handed to sort.Search and the final test, over the i-th topic's\nname `elem` and the requested name `target` -/\n")
 	fmt.Fprintf(&b, "def searchPred (elem target : String) : Bool := decide (%s)\ndef searchHit (elem target : String) : Bool := decide (%s)\n\n", spred, sfinal)
+	lf, err := leaderFirstOf(repo)
+	if err != nil {
+		return err
+	}
+	b.WriteString("/-- protocol/listoffsets (*Request).Broker: `part` = Leader of the topic's partition whose ID is the requested one (none: no\nsuch topic / partition), `bro` = id of the broker registered under an id, `zeroBroker` = ID of the zero Broker value -/\n")
+	fmt.Fprintf(&b, "def listOffsetsBroker (part : Option Int) (bro : Int → Option Int) (zeroBroker : Int := 0) : Int :=\n  %s\n\n", lf)
 	cmp, err := updateCompare(repo)
 	if err != nil {
 		return err
@@ -997,6 +1004,19 @@ func extractRouting(repo, root string) error {
 	default:
 		b.WriteString("def updateCompare : BrokerCompare := .other\n\n")
 	}
+	us, err := extractUpdateSets(repo)
+	if err != nil {
+		return err
+	}
+	b.WriteString("/-- transport.go update, classification of a broker id of the NEW layout: (goes into the add set, goes into the\ndelete set), by whether the id was in the old layout and whether its entry changed -/\n")
+	fmt.Fprintf(&b, "def updateNewEntry (inOld changed : Bool) : Bool × Bool :=\n  %s\n", us.newEntry)
+	b.WriteString("/-- … and of a broker id of the OLD layout, by whether it is still in the new one -/\n")
+	fmt.Fprintf(&b, "def updateOldEntry (inNew : Bool) : Bool × Bool :=\n  %s\n", us.oldEntry)
+	b.WriteString("/-- which set is applied to the pool's connection groups first -/\ninductive SetRole where\n  | add | del\n  deriving DecidableEq, Repr, Inhabited\n")
+	for i := range us.order {
+		us.order[i] = "." + us.order[i]
+	}
+	fmt.Fprintf(&b, "def updateApplyOrder : List SetRole := [%s]\n\n", strings.Join(us.order, ", "))
 	guard, err := brokerConnGuard(repo)
 	if err != nil {
 		return err
